@@ -94,13 +94,17 @@ def unit_oracle(kind, rel, repeat, cond, prev, cur, sc, thr, first):
             last = Ts - _zmod(Ts - TH, DAY)
             fires = last > Ps
             return dict(must_true=fires, must_false=z3.Not(fires), instant=last - S)
+        # the instant at which the daily interval opens: the threshold for after / >=, midnight for before / <=; a simple control on
+        # such a condition has to act there, so the backtrack must land on it when it lies inside the step
+        opens = (Ts - _zmod(Ts - TH, DAY) - S) if rel in ('gt', 'ge') else (Ts - _zmod(Ts, DAY) - S)
+        extra = dict(opens=opens, opens_inside=opens > P)
         if rel == 'gt':   # 'after': documented as true from the time specified until midnight; the instant itself is left open
-            return dict(must_true=clock > TH, must_false=clock < TH, instant=None)
+            return dict(must_true=clock > TH, must_false=clock < TH, instant=None, **extra)
         if rel == 'ge':
-            return dict(must_true=clock >= TH, must_false=clock < TH, instant=None)
+            return dict(must_true=clock >= TH, must_false=clock < TH, instant=None, **extra)
         if rel == 'lt':
-            return dict(must_true=clock < TH, must_false=clock > TH, instant=None)
-        return dict(must_true=clock <= TH, must_false=clock > TH, instant=None)
+            return dict(must_true=clock < TH, must_false=clock > TH, instant=None, **extra)
+        return dict(must_true=clock <= TH, must_false=clock > TH, instant=None, **extra)
     # a one-off clock time that is earlier than the clock at the start of the simulation means that time on the next day
     base = z3.IntVal(first * DAY) if first >= 1 else z3.If(TH < S, z3.IntVal(DAY), z3.IntVal(0))
     inst = TH + base
@@ -155,6 +159,10 @@ def check_unit(rep, kind, rel, repeat):
                     elif not rep.prove('unit/%s/backtrack/path%d' % (tag, n), cons + [o['must_true']], real_int(args[1]) - real_int(back) == o['instant'], wit, 'unit',
                                        sample='cur - backtrack == the firing instant'):
                         failed.add('back')
+                if o.get('opens') is not None and 'opens' not in failed and back is not None:
+                    if not rep.prove('unit/%s/backtrack-to-interval-start/path%d' % (tag, n), cons + [o['must_true'], o['opens_inside']],
+                                     real_int(args[1]) - real_int(back) == o['opens'], wit, 'unit', sample='interval opens inside the step: cur - backtrack == that instant'):
+                        failed.add('opens')
             elif res is False:
                 if 'false' not in failed and not rep.prove('unit/%s/returns-false/path%d' % (tag, n), cons, z3.Not(o['must_true']), wit, 'unit',
                                                             sample='evaluate() == False only where no instant lies in (prev, cur] / the condition does not hold'):
@@ -218,6 +226,11 @@ def replay_unit(i):
                 exp = must_true
     if not ok:
         return '%s %s (repeat=%s) threshold=%d start_clocktime=%d prev=%d cur=%d: evaluate()=%s, expected %s' % (kind, rel, repeat, TH, int(sc), P, T, res, exp)
+    if kind == 'clock' and repeat and rel != 'eq' and res and back is not None:
+        S_ = int(sc)
+        opens = (T + S_ - (T + S_ - TH) % DAY - S_) if rel in ('gt', 'ge') else (T + S_ - (T + S_) % DAY - S_)
+        if opens > P and exp and T - int(back) != opens:
+            return '%s %s daily threshold=%d start_clocktime=%d prev=%d cur=%d: the interval opens at %d inside the step but the backtrack lands on %d' % (kind, rel, TH, S_, P, T, opens, T - int(back))
     if res and inst is not None and (back is None or T - int(back) != inst):
         return '%s %s (repeat=%s) threshold=%d start_clocktime=%d prev=%d cur=%d: backtrack=%r lands on %r, instant is %d' % (
             kind, rel, repeat, TH, int(sc), P, T, back, None if back is None else T - int(back), inst)
